@@ -36,6 +36,7 @@
 EXTENDS Integers, Sequences, FiniteSets, TLC
 
 CONSTANTS FZero, FOne, FAdd(_, _), FMul(_, _), FLess(_, _),
+          FW,                    \* the non-residue W of the quadratic extension F[X]/(X^2 - W)
           NW, NR, NC,            \* num_wires, num_routed_wires, num_constants
           Mutant                 \* "none" or the name of a seeded deviation
 
@@ -45,10 +46,11 @@ VARIABLES rows,      \* sequence of [kind, params, cells]; row r of the code is 
           nvirt,     \* virtual_target_index
           c2t,       \* constants_to_targets: constant -> virtual index
           cache,     \* base_arithmetic_results: <<c0, c1, x, y, z>> -> target
+          ecache,    \* arithmetic_results: <<c0, c1, X, Y, Z>> -> extension target (a pair of targets)
           tval,      \* (semantics) target -> value; only maintained when Sem
           last,      \* what the last call returned / observed
           built      \* [done |-> FALSE], or the record describing the built circuit
-vars == <<rows, slots, used, nvirt, c2t, cache, tval, last, built>>
+vars == <<rows, slots, used, nvirt, c2t, cache, ecache, tval, last, built>>
 
 CONSTANTS Sem, InputVals         \* semantic layer on/off; values a fresh virtual target may take
 
@@ -59,7 +61,10 @@ ArithOps == NR \div 4
 RaCopies(bits) == Min(NR \div (2 + Pow2(bits)), NW \div (2 + Pow2(bits) + bits))
 RaExtra(bits) == Min(NR - (2 + Pow2(bits)) * RaCopies(bits), NC)
 RaKind(bits) == "ra" \o ToString(bits)
-Capacity(kind, bits) == IF kind = "arith" THEN ArithOps ELSE RaCopies(bits)
+ArithExtOps == NR \div 8        \* ArithmeticExtensionGate: 4 * D wires per operation, D = 2
+MulExtOps == NR \div 6          \* MulExtensionGate: 3 * D wires per operation
+Capacity(kind, bits) == IF kind = "arith" THEN ArithOps ELSE IF kind = "arithext" THEN ArithExtOps
+                        ELSE IF kind = "mulext" THEN MulExtOps ELSE RaCopies(bits)
 \* constant-generator cells of a row (ConstantGate: num_consts = num_constants)
 Cells(row) == row.cells
 
@@ -67,7 +72,7 @@ V(i) == <<"v", i>>
 W(r, c) == <<"w", r, c>>
 NumRows == Len(rows)
 
-Init == /\ rows = <<>> /\ slots = <<>> /\ used = {} /\ nvirt = 0 /\ c2t = <<>> /\ cache = <<>>
+Init == /\ rows = <<>> /\ slots = <<>> /\ used = {} /\ nvirt = 0 /\ c2t = <<>> /\ cache = <<>> /\ ecache = <<>>
         /\ tval = <<>> /\ last = [ev |-> "init"] /\ built = [done |-> FALSE]
 
 Put(f, k, v) == (k :> v) @@ f                       \* insert / overwrite
@@ -100,14 +105,14 @@ Virt(v) ==
   /\ ~built.done /\ v \in InputVals
   /\ nvirt' = nvirt + 1 /\ tval' = SetVal(tval, V(nvirt), v)
   /\ last' = [ev |-> "virt", res |-> V(nvirt), ng |-> NumRows]
-  /\ UNCHANGED <<rows, slots, used, c2t, cache, built>>
+  /\ UNCHANGED <<rows, slots, used, c2t, cache, ecache, built>>
 
 Const(c) ==
   /\ ~built.done
   /\ LET s == ConstStep(c2t, nvirt, c) IN
        /\ c2t' = s[1] /\ nvirt' = s[2] /\ tval' = SetVal(tval, s[3], c)
        /\ last' = [ev |-> "const", c |-> c, res |-> s[3], ng |-> NumRows]
-  /\ UNCHANGED <<rows, slots, used, cache, built>>
+  /\ UNCHANGED <<rows, slots, used, cache, ecache, built>>
 
 \* arithmetic(c0, c1, x, y, z) with use_base_arithmetic_gate
 Arith(c0, c1, x, y, z) ==
@@ -158,7 +163,84 @@ Arith(c0, c1, x, y, z) ==
           /\ tval' = SetVal(tv1, out, E)
           /\ last' = [ev |-> "arith", path |-> "slot", res |-> out, ng |-> Len(fs[2]), expect |-> E,
                       fresh |-> <<row, i>> \notin used]
-  /\ UNCHANGED built
+  /\ UNCHANGED <<built, ecache>>
+
+\* ---- extension arithmetic (gadgets/arithmetic_extension.rs), D = 2 ---------------------------------
+EZero == <<FZero, FZero>>
+EOne == <<FOne, FZero>>
+EAdd(a, b) == <<FAdd(a[1], b[1]), FAdd(a[2], b[2])>>
+EMul(a, b) == <<FAdd(FMul(a[1], b[1]), FMul(FW, FMul(a[2], b[2]))), FAdd(FMul(a[1], b[2]), FMul(a[2], b[1]))>>
+EScal(a, c) == <<FMul(a[1], c), FMul(a[2], c)>>
+\* constant_extension(e): self.zero() for the initial array, then constant() of each coefficient
+ConstExtStep(m, n, e) ==
+  LET s0 == ConstStep(m, n, FZero)
+      s1 == ConstStep(s0[1], s0[2], e[1])
+      s2 == ConstStep(s1[1], s1[2], e[2])
+  IN <<s2[1], s2[2], <<s1[3], s2[3]>>>>
+TConstE(m, X) == LET a == TConst(m, X[1])  b == TConst(m, X[2])
+                 IN IF a[1] /\ b[1] THEN <<TRUE, <<a[2], b[2]>>>> ELSE <<FALSE, EZero>>
+ValE(tv, X) == <<Val(tv, X[1]), Val(tv, X[2])>>
+SetValE(tv, X, e) == SetVal(SetVal(tv, X[1], e[1]), X[2], e[2])
+
+ConstExt(e) ==
+  /\ ~built.done
+  /\ LET s == ConstExtStep(c2t, nvirt, e) IN
+       /\ c2t' = s[1] /\ nvirt' = s[2]
+       /\ tval' = SetValE(SetVal(tval, V(IF Has(c2t, FZero) THEN c2t[FZero] ELSE nvirt), FZero), s[3], e)
+       /\ last' = [ev |-> "constext", res |-> s[3], ng |-> NumRows]
+  /\ UNCHANGED <<rows, slots, used, cache, ecache, built>>
+
+ArithExt(c0, c1, X, Y, Z) ==
+  /\ ~built.done
+  /\ LET zs == ConstExtStep(c2t, nvirt, EZero)            \* self.zero_extension()
+         m1 == zs[1]  n1 == zs[2]  zeroE == zs[3]
+         tv1 == SetVal(tval, zeroE[1], FZero)
+         xc == TConstE(m1, X)  yc == TConstE(m1, Y)  zc == TConstE(m1, Z)
+         firstZero == c0 = FZero \/ X = zeroE \/ Y = zeroE
+         secondZero == c1 = FZero \/ Z = zeroE
+         firstConst == IF firstZero THEN <<TRUE, EZero>>
+                       ELSE IF xc[1] /\ yc[1] THEN <<TRUE, EScal(EMul(xc[2], yc[2]), c0)>> ELSE <<FALSE, EZero>>
+         secondConst == IF secondZero THEN <<TRUE, EZero>>
+                        ELSE IF zc[1] THEN <<TRUE, EScal(zc[2], c1)>> ELSE <<FALSE, EZero>>
+         E == EAdd(EScal(EMul(ValE(tv1, X), ValE(tv1, Y)), c0), EScal(ValE(tv1, Z), c1))
+         op == <<c0, c1, X, Y, Z>>
+     IN
+     IF firstConst[1] /\ secondConst[1]
+     THEN LET cs == ConstExtStep(m1, n1, EAdd(firstConst[2], secondConst[2])) IN
+          /\ c2t' = cs[1] /\ nvirt' = cs[2] /\ tval' = SetValE(tv1, cs[3], EAdd(firstConst[2], secondConst[2]))
+          /\ last' = [ev |-> "arithext", path |-> "fold", res |-> cs[3], ng |-> NumRows, expect |-> E]
+          /\ UNCHANGED <<rows, slots, used, ecache>>
+     ELSE IF firstZero /\ c1 = FOne
+     THEN /\ c2t' = m1 /\ nvirt' = n1 /\ tval' = tv1
+          /\ last' = [ev |-> "arithext", path |-> "addend", res |-> Z, ng |-> NumRows, expect |-> E]
+          /\ UNCHANGED <<rows, slots, used, ecache>>
+     ELSE IF secondZero /\ xc[1] /\ EScal(xc[2], c0) = EOne
+     THEN /\ c2t' = m1 /\ nvirt' = n1 /\ tval' = tv1
+          /\ last' = [ev |-> "arithext", path |-> "m1", res |-> Y, ng |-> NumRows, expect |-> E]
+          /\ UNCHANGED <<rows, slots, used, ecache>>
+     ELSE IF secondZero /\ yc[1] /\ EScal(yc[2], c0) = EOne
+     THEN /\ c2t' = m1 /\ nvirt' = n1 /\ tval' = tv1
+          /\ last' = [ev |-> "arithext", path |-> "m0", res |-> (IF Mutant = "ext_identity_wrong_operand" THEN Y ELSE X),
+                      ng |-> NumRows, expect |-> E]
+          /\ UNCHANGED <<rows, slots, used, ecache>>
+     ELSE IF Has(ecache, op)
+     THEN /\ c2t' = m1 /\ nvirt' = n1 /\ tval' = tv1
+          /\ last' = [ev |-> "arithext", path |-> "cache", res |-> ecache[op], ng |-> NumRows, expect |-> E]
+          /\ UNCHANGED <<rows, slots, used, ecache>>
+     ELSE \* addend a constant zero: multiplication gate (3 * D wires per operation); else arithmetic gate
+          LET mulOnly == IF Mutant = "mul_gate_for_any_const_addend" THEN zc[1] ELSE zc[1] /\ zc[2] = EZero
+              fs == IF mulOnly THEN FindSlot("mulext", <<c0>>, 0, 0) ELSE FindSlot("arithext", <<c0, c1>>, 0, 0)
+              row == fs[3]  i == fs[4]
+              out == IF mulOnly THEN <<W(row, 6 * i + 4), W(row, 6 * i + 5)>> ELSE <<W(row, 8 * i + 6), W(row, 8 * i + 7)>>
+              \* what the gate computes: the multiplication gate has no addend
+              G == IF mulOnly THEN EScal(EMul(ValE(tv1, X), ValE(tv1, Y)), c0) ELSE E IN
+          /\ slots' = fs[1] /\ rows' = fs[2] /\ used' = used \cup {<<row, i>>}
+          /\ c2t' = m1 /\ nvirt' = n1
+          /\ ecache' = Put(ecache, op, out)
+          /\ tval' = SetValE(tv1, out, G)
+          /\ last' = [ev |-> "arithext", path |-> (IF mulOnly THEN "mulslot" ELSE "slot"), res |-> out, ng |-> Len(fs[2]),
+                      expect |-> E, fresh |-> <<row, i>> \notin used]
+  /\ UNCHANGED <<built, cache>>
 
 \* random_access(index, list of 2^bits targets), bits >= 1: a fresh virtual target and a slot
 RandomAccess(bits, v) ==
@@ -168,14 +250,14 @@ RandomAccess(bits, v) ==
        /\ nvirt' = nvirt + 1 /\ tval' = SetVal(tval, V(nvirt), v)
        /\ last' = [ev |-> "ra", bits |-> bits, res |-> V(nvirt), ng |-> Len(fs[2]),
                    fresh |-> <<fs[3], fs[4]>> \notin used]
-  /\ UNCHANGED <<c2t, cache, built>>
+  /\ UNCHANGED <<c2t, cache, ecache, built>>
 
 \* add_gate(gate, []) of a gate that is not slotted: "noop", or "const" (a ConstantGate row: NC cells)
 AddRow(kind) ==
   /\ ~built.done /\ kind \in {"noop", "const"}
   /\ rows' = Append(rows, [kind |-> kind, params |-> <<>>, cells |-> IF kind = "const" THEN NC ELSE 0])
   /\ last' = [ev |-> "row", kind |-> kind, ng |-> NumRows + 1]
-  /\ UNCHANGED <<slots, used, nvirt, c2t, cache, tval, built>>
+  /\ UNCHANGED <<slots, used, nvirt, c2t, cache, ecache, tval, built>>
 
 \* ---- build ------------------------------------------------------------------------------------
 RECURSIVE GenCells(_, _)
@@ -211,11 +293,11 @@ Build(npi) ==
         /\ built' = [done |-> TRUE, assign |-> assign, degree |-> Len(rs3), before_pad |-> Len(rs2), kept |-> kept,
                      nconst |-> Cardinality(DOMAIN m1)]
         /\ last' = [ev |-> "build", ng |-> Len(rs3)]
-  /\ UNCHANGED <<slots, used, cache, tval>>
+  /\ UNCHANGED <<slots, used, cache, ecache, tval>>
 
 \* ---- property level ---------------------------------------------------------------------------
-KindOfBits(kind) == IF kind = "arith" THEN 0 ELSE CHOOSE b \in 1..6 : RaKind(b) = kind
-SlotsDistinct == last.ev \in {"arith", "ra"} /\ "fresh" \in DOMAIN last => last.fresh
+KindOfBits(kind) == IF kind \in {"arith", "arithext", "mulext"} THEN 0 ELSE CHOOSE b \in 1..6 : RaKind(b) = kind
+SlotsDistinct == last.ev \in {"arith", "arithext", "ra"} /\ "fresh" \in DOMAIN last => last.fresh
 SlotsTyped ==
   \A k \in DOMAIN slots :
      LET r == slots[k][1]  i == slots[k][2] IN
@@ -234,7 +316,8 @@ FullRowsFull ==
   \A r \in 0..(NumRows - 1) :
      rows[r + 1].kind \notin {"noop", "const", "pi", "poseidon"} /\ ~(\E k \in DOMAIN slots : slots[k][1] = r)
        => \A j \in 0..(Capacity(rows[r + 1].kind, KindOfBits(rows[r + 1].kind)) - 1) : <<r, j>> \in used
-MeaningKept == Sem /\ last.ev = "arith" => Val(tval, last.res) = last.expect
+MeaningKept == /\ (Sem /\ last.ev = "arith" => Val(tval, last.res) = last.expect)
+               /\ (Sem /\ last.ev = "arithext" => ValE(tval, last.res) = last.expect)
 ConstInjective == \A c, d \in DOMAIN c2t : c2t[c] = c2t[d] => c = d
 ConstBelowVirt == \A c \in DOMAIN c2t : c2t[c] < nvirt
 BuildOk ==
